@@ -1,5 +1,6 @@
 //! vh — harness that runs /repo's implementation for the checks in /verif.
 //! Every call into /repo code is wrapped in catch_unwind: a panic is an observation.
+mod front;
 mod heap_run;
 mod rng;
 mod srcsem;
@@ -14,6 +15,7 @@ fn main() {
   }
   let rest = &args[2..];
   match args[1].as_str() {
+    "front" => front::main(rest),
     "heap-run" => heap_run::main(rest),
     "src-run" => srcsem::main(rest),
     "std-dump" => std_dump::main(rest),
